@@ -6,10 +6,71 @@ package editops
 // `valid` compares the two verdicts.
 
 import (
+	"bytes"
+	"compress/zlib"
 	"encoding/binary"
 	"fmt"
+	"io"
 	"strings"
+
+	"github.com/ulikunitz/xz/lzma"
 )
+
+// GUIDs of the compressed GUID-defined sections this reader opens (UEFI PI / EDK2: LZMA custom
+// decompress, and the ZLIB variant with its 256-byte section header). LZMA+x86 and Brotli payloads
+// are not opened.
+var lzmaGUID = [16]byte{0x98, 0x58, 0x4e, 0xee, 0x14, 0x39, 0x59, 0x42, 0x9d, 0x6e, 0xdc, 0x7b, 0xd7, 0x94, 0x03, 0xcf}
+var zlibGUID = [16]byte{0xf5, 0x33, 0x32, 0xce, 0xd6, 0x2c, 0x87, 0x4d, 0x91, 0x52, 0x4a, 0x23, 0x8b, 0xb6, 0xd1, 0xc4}
+
+// decodePayload: (plain, opened, ok). opened=false: not a payload this reader opens.
+func decodePayload(g [16]byte, payload []byte) ([]byte, bool, bool) {
+	switch g {
+	case lzmaGUID:
+		r, err := lzma.NewReader(bytes.NewReader(payload))
+		if err != nil {
+			return nil, true, false
+		}
+		p, err := io.ReadAll(r)
+		return p, true, err == nil
+	case zlibGUID:
+		if len(payload) < 256 {
+			return nil, true, false
+		}
+		r, err := zlib.NewReader(bytes.NewReader(payload[256:]))
+		if err != nil {
+			return nil, true, false
+		}
+		p, err := io.ReadAll(r)
+		return p, true, err == nil
+	}
+	return nil, false, false
+}
+
+// compressedAt: the section at off of fb (header length hl, size) is a GUID-defined section with
+// the processing-required bit and a codec this reader opens; returns the decoded sections.
+func compressedAt(fb []byte, off, hl, size int) (plain []byte, opened bool, why string) {
+	if fb[off+3] != 0x02 {
+		return nil, false, ""
+	}
+	if size < hl+20 {
+		return nil, true, "guid-defined-header"
+	}
+	var g [16]byte
+	copy(g[:], fb[off+hl:off+hl+16])
+	doff := int(binary.LittleEndian.Uint16(fb[off+hl+16:]))
+	attrs := binary.LittleEndian.Uint16(fb[off+hl+18:])
+	if attrs&1 == 0 || (g != lzmaGUID && g != zlibGUID) {
+		return nil, false, ""
+	}
+	if doff > size {
+		return nil, true, "guid-defined-data-offset"
+	}
+	p, _, ok := decodePayload(g, fb[off+doff:off+size])
+	if !ok {
+		return nil, true, "payload-does-not-decode"
+	}
+	return p, true, ""
+}
 
 var ffs2 = [16]byte{0x78, 0xe5, 0x8c, 0x8c, 0x3d, 0x8a, 0x1c, 0x4f, 0x99, 0x35, 0x89, 0x61, 0x85, 0xc3, 0x2d, 0xd3}
 var ffs3 = [16]byte{0x7a, 0xc0, 0x73, 0x54, 0xcb, 0x3d, 0xca, 0x4d, 0xbd, 0x6f, 0x1e, 0x96, 0x89, 0xe7, 0x34, 0x9a}
@@ -271,6 +332,18 @@ func validSections(fb []byte, off int, depth int) string {
 				return fmt.Sprintf("section@%x: nested %s", off, why)
 			}
 		}
+		// the sections inside a compressed section count as well
+		if plain, opened, why := compressedAt(fb, off, hl, size); opened {
+			if why != "" {
+				return fmt.Sprintf("section@%x: %s", off, why)
+			}
+			if depth <= 1 {
+				return "nesting-too-deep"
+			}
+			if why := validSections(plain, 0, depth-1); why != "" {
+				return fmt.Sprintf("section@%x: inside the compressed section: %s", off, why)
+			}
+		}
 		off = up(off+size, 4)
 	}
 	return ""
@@ -347,21 +420,29 @@ func AbsFile(g []byte, typ, attr byte, body []byte, hl int) string {
 	}
 	fb := append(make([]byte, hl), body...)
 	sb.WriteString("{")
-	for off := hl; off < len(fb); {
+	absSections(&sb, fb, hl)
+	sb.WriteString("}")
+	return sb.String()
+}
+
+func absSections(sb *strings.Builder, fb []byte, off int) {
+	for off < len(fb) {
 		shl, size, ok := secAt(fb, off)
 		if !ok {
 			sb.WriteString("!bad-section")
-			break
+			return
 		}
-		if fb[off+3] == 0x17 {
-			fmt.Fprintf(&sb, "S(17,%s)", AbsVolume(fb[off+shl:off+size]))
+		if plain, opened, why := compressedAt(fb, off, shl, size); opened && why == "" {
+			sb.WriteString("Z(")
+			absSections(sb, plain, 0)
+			sb.WriteString(")")
+		} else if fb[off+3] == 0x17 {
+			fmt.Fprintf(sb, "S(17,%s)", AbsVolume(fb[off+shl:off+size]))
 		} else {
-			fmt.Fprintf(&sb, "S(%x,%x)", fb[off+3], fb[off+shl:off+size])
+			fmt.Fprintf(sb, "S(%x,%x)", fb[off+3], fb[off+shl:off+size])
 		}
 		off = up(off+size, 4)
 	}
-	sb.WriteString("}")
-	return sb.String()
 }
 
 // FileOffsets maps "volumeindex/guid/type#occurrence" of every non-pad file of the top-level
